@@ -9,11 +9,55 @@ def run(R, ctx):
                                "subscribed to its own channel; resubscription; client-side closes; publishing from another selected database.",
                                damage=False)
     rule = R.rule
-    concsuite.run_conc(R, ctx, "pubsub", ["pubsub"], (4, 40))
+    reports = concsuite.run_conc(R, ctx, "pubsub", ["pubsub"], (4, 40)) or []
+    # lock-trace tie (hook H2b): every goroutine's Pub/Sub lock / access event sequence is a run of the operation automaton of the Lean model
+    # Conc/PubSubConc.lean (harness/conc_pubsub_trace.go); the sequential path scenario covers every code path and every automaton state
+    traced = sum(r.get("trace_events", 0) for r in reports)
+    paths = [r for r in reports if r.get("scenario") == "pubsub-paths"]
+    lt_bad = [r for r in reports if r.get("result") == "locktrace"]
+    R.oblige("lock-trace tie (hook H2b): per goroutine, the table/channel lock, conns-map and table access events are a run of the model's operation "
+             "automaton (table lock before channel lock, modes, accesses under the right lock, nothing held at quiescence); all automaton states "
+             "visited by the sequential path scenario; negative control refused",
+             "tie", bool(paths) and all(r.get("result") == "ok" for r in paths) and not lt_bad and traced > 0,
+             "%d events checked in %d scenario rounds, %d path scenario(s), %d non-conforming" % (traced, len(reports), len(paths), len(lt_bad)))
+    R.extra.setdefault("conc", {}).setdefault("pubsub", {})["locktrace_events"] = traced
+    # the same judgement by the Lean automaton itself (PSC.TA.ok, proved to accept every thread of the model: PSC.thread_trace_accepted):
+    # the whole event sequences of the small scenarios go through the compiled driver (engine PST)
+    lines = []
+    for r in reports:
+        tag = "PST" if r.get("scenario") == "pubsub-paths" else "PSTP"
+        for g, tr in sorted((r.get("traces") or {}).items()):
+            lines.append("%s %s-%s-%s %s" % (tag, r.get("build", "b"), r.get("scenario"), g, tr))
+    controls = {
+        "release-channel-then-table": "TRL get TRU CL cr CU TRL get TRU CL TL",
+        "inversion-in-loop": "TRL get TRU CL cr TL",
+        "conns-write-no-channel-lock": "TL get cr",
+        "iterate-no-channel-lock": "TRL get TRU cr",
+        "table-write-under-read-lock": "TRL get del",
+        "channel-lock-inside-read-section": "TRL get CL",
+        "lookup-without-table-lock": "get",
+        "unlock-table-before-channel": "TL get CL cr TU",
+        "ends-holding-table-lock": "TL get",
+    }
+    lines += ["PSTN %s %s" % (k, v) for k, v in sorted(controls.items())]
+    d = core.run_driver(lines)
+    ok = bool(lines) and len(lines) > len(controls) and not d["mismatches"] and not d["unknown"]
+    R.oblige("lock-trace tie, Lean side: the recorded event sequences are accepted by PSC.TA.ok / are runs of PSC.TA.step (compiled driver, engine PST); "
+             "negative controls refused", "tie", ok,
+             "%d goroutine traces + %d controls, %d mismatches%s" % (len(lines) - len(controls), len(controls), len(d["mismatches"]),
+                                                                   (": " + d["mismatches"][0][:200]) if d["mismatches"] else ""))
+    if d["mismatches"]:
+        R.violation("pubsub-locktrace-lean", dict(kind="impl-violates-spec", engine="conc",
+                                                  summary="a goroutine's Pub/Sub lock/access event sequence is not a run of the model's operation automaton: " + d["mismatches"][0][:300],
+                                                  args=["conc", str(R.seed), "1", "pubsub"],
+                                                  explanation="hook H2b events of one goroutine judged by PSC.TA (lean/RedisGoModel/Conc/PubSubTrace.lean)"))
     R.rule = rule + (" Concurrent exploration: 3 stable subscribers on two channels that keep issuing PING on their own connections, 4 publishers "
                      "publishing 25 messages each (8 B to 70 kB, CR/LF inside) and 2 churn connections subscribing and disconnecting; every subscriber's "
                      "byte stream must be well-formed pushes containing each message exactly once, intact, each publisher's in order; PUBLISH counts at "
-                     "least the stable subscribers; publishers must get their reply within 10 s; repeated under the Go race detector.")
+                     "least the stable subscribers; publishers must get their reply within 10 s; repeated under the Go race detector. "
+                     "Lock-trace tie: in every pubsub scenario (sockets, handover, prune; the first rounds of the stress loops) and in a sequential scenario "
+                     "covering every code path of Subscribe/UnSubscribe/Send/PUBLISH, each goroutine's hook-H2b event sequence must be a run of the operation "
+                     "automaton of the Lean model PSC (Conc/PubSubConc.lean) - the hypotheses of PSC.lock_order / pubsub_deadlock_free / send_sees_consistent_set.")
 
 
 def replay(R, payload):
